@@ -32,6 +32,14 @@ def step (t : Table) (args : List String) : Table × String :=
       | some (k, d) => (t', if getType d = T_EMPTY then "miss" else showEntry (k ^^^ t.contempt) d ply)   -- callers treat T_EMPTY as a miss
       | none => (t', "miss")
     | _, _ => (t, "bad-op")
+  | ["busy", key, ply] =>
+    match parseNat? key, parseInt? ply with
+    | some key, some ply =>
+      let (t', r) := t.probe (BitVec.ofNat 64 key)
+      match r with
+      | some (k, d) => if getType d = T_EMPTY then (t', "miss") else (t'.setBusy k d ply, "ok")
+      | none => (t', "miss")
+    | _, _ => (t, "bad-op")
   | ["gen"] => (t.nextGeneration, s!"ok {t.nextGeneration.gen}")
   | ["clear"] => (t.clear, "ok")
   | ["contempt", c] => match parseInt? c with
